@@ -350,6 +350,21 @@ def stale_reference_rule(prog, res):
                                      '%s() of a temporary object is kept in a local pointer: the temporary is destroyed at the end of the declaration and the pointer is used afterwards (%s)' %
                                      (i['callee']['name'], f.loc(uses[0]['id'])), function=f.sig, expr='temp-ptr:' + d['name'])
                     continue
+                # (b') an iterator into a temporary:  auto it = get().begin();  - the container returned by value dies with the declaration
+                i2 = f.nodes[f.strip(d['init'], 'all')]
+                if i2['k'] == 'CXXMemberCallExpr' and i2['callee']['name'] in ('begin', 'end', 'cbegin', 'cend', 'rbegin', 'rend') and i2.get('obj') is not None and \
+                        str(i2['callee'].get('classq', '')).startswith('std::'):
+                    o = f.nodes[f.strip(i2['obj'], 'noop')]
+                    while o['k'] in ('MaterializeTemporaryExpr', 'CXXBindTemporaryExpr', 'ExprWithCleanups', 'ImplicitCastExpr') and o['ch']:
+                        o = f.nodes[f.strip(o['ch'][0], 'noop')]
+                    rt_ = str(o.get('callee', {}).get('ret', ''))
+                    is_temp = o['k'] in ('CallExpr', 'CXXMemberCallExpr') and o.get('callee', {}).get('inrepo') and rt_ and not rt_.endswith('&') and not rt_.endswith('*')
+                    uses = [x for x in f.all_nodes({'DeclRefExpr'}) if x['decl'].get('id') == d['id'] and x['decl'].get('dk') == 'local']
+                    if is_temp and uses:
+                        res.viol('dangling', 'iterator `%s` into a temporary' % d['name'], f.loc(n['id']),
+                                 '%s() of the container that %s() returns by value is kept in a local: the temporary container is destroyed at the end of the declaration and the iterator is used afterwards (%s)' %
+                                 (i2['callee']['name'], o['callee'].get('name'), f.loc(uses[0]['id'])), function=f.sig, expr='temp-iter:' + d['name'], sure=True)
+                        continue
                 if not d.get('isref') or d['type'].startswith('const ') and False:
                     continue
                 kind, path = root_of(f, d['init'])
